@@ -6,6 +6,29 @@ package main
 var properties = map[string]*property{}
 
 func init() {
+	properties["C06"] = &property{
+		ID: "C06", Level: "model_checking",
+		Harnesses: []harness{
+			{Name: "gsxC06InitCheckers", Pkg: "cmd/go-critic", Quick: map[string]int{"strlen": 5}, MustReach: []string{"non-empty selection", "empty selection"}},
+			{Name: "gsxC06DefaultList", Pkg: "cmd/go-critic", Quick: map[string]int{"strlen": 5}, MustReach: []string{"defaults"}},
+			{Name: "gsxC06InitCheckers", Pkg: "cmd/gocritic", Quick: map[string]int{"strlen": 5}, MustReach: []string{"non-empty selection", "empty selection"}},
+			{Name: "gsxC06DefaultList", Pkg: "cmd/gocritic", Quick: map[string]int{"strlen": 5}, MustReach: []string{"defaults"}},
+			{Name: "gsxC06Filter", Pkg: "checkers/analyzer", Quick: map[string]int{"strlen": 5}, MustReach: []string{"filtered"}},
+			{Name: "gsxC06EmptySelection", Pkg: "checkers/analyzer", Quick: map[string]int{"strlen": 5}, MustReach: []string{"selected", "empty selection"}},
+			{Name: "gsxC06Defaults", Pkg: "checkers/analyzer", Quick: map[string]int{"strlen": 12}, MustReach: []string{"defaults"}},
+		},
+		Assumptions: []string{"keys and tags are byte strings of at most 5 / 3 bytes; at most 2 enable keys, 2 disable keys, 2+1 tags"},
+	}
+	properties["C15"] = &property{
+		ID: "C15", Level: "model_checking",
+		Harnesses: []harness{
+			{Name: "gsxC15ParseAccepts", Pkg: "linter", Quick: map[string]int{"strlen": 8, "splitparts": 4}, MustReach: []string{"accepted", "rejected"}},
+			{Name: "gsxC15ParseValue", Pkg: "linter", Quick: map[string]int{"strlen": 8}, MustReach: []string{"parsed"}},
+			{Name: "gsxC15Compare", Pkg: "linter", Solver: "z3", Quick: map[string]int{}, MustReach: []string{"compared"}},
+			{Name: "gsxC15SetGoVersion", Pkg: "linter", Quick: map[string]int{"strlen": 6}, MustReach: []string{"set"}},
+		},
+		Assumptions: []string{"integer arithmetic on symbolic values is mathematical (no overflow)", "version strings up to 8 bytes"},
+	}
 	properties["C16"] = &property{
 		ID: "C16", Level: "model_checking",
 		Harnesses: []harness{
